@@ -216,3 +216,105 @@ def run_oracle(line, out):
         if tok.startswith("TOK:"):
             c.tok = tok[4:]
     return c, oracle(c, out)
+
+
+# ------------------------------------------------------------------ correspondence with the model
+def tie_lines(case, out):
+    """From one trace build the two model cases:
+      blkwire : every body-carrying block message the sender put on the wire (must be the slice
+                the model cuts: Slices.v vs coap_add_data_large_internal and the send paths)
+      blkrecv : the block messages that reached the receiver, in order, with R where the real
+                receiver dropped its state; the model's outcome per message must equal what
+                the real receiver did (RecBlocks.v reassembly cores vs put_block / get_block)
+    -> (wire_line or None, recv_line or None, observed outcome string)"""
+    if "END:" not in out:
+        return None, None, ""
+    ev = parse(out)
+    data_sender = "TXc" if case.dir == "b1" else "TXs"
+    bopt = 6 if case.dir == "b1" else 7
+    sopt = 8 if case.dir == "b1" else 9
+    single_rx = case.single_srv if case.dir == "b1" else case.single_cli
+    blk = {}          # idx -> block token
+    wire = []
+    plain = False     # a body-carrying message without Block option: not a block-wise transfer
+    for f in ev:
+        if f[0] == data_sender and f[2] != "UNPARSEABLE" and int(f[10]) > 0 and \
+           (case.dir == "b1" or int(f[3]) == 69):
+            if f[bopt] == "-":
+                plain = True
+                continue
+            tok = "%s/%s/%s/%s" % (f[bopt], f[sopt], f[10], f[11])
+            blk[f[1]] = tok
+            wire.append(tok)
+    if plain or not wire:
+        return None, None, ""
+    wire_line = "blkwire %d %d %s" % (case.len, case.seed, " ".join(wire))
+    if not single_rx:
+        return wire_line, None, ""
+    # receiver side
+    rcv_idx = 0 if case.dir == "b1" else 2       # field of ST: lg_srcv count / lg_crcv count
+    toks = []
+    obs = []
+    cur = None         # events of the arrival being handled
+    state_n, initial = 0, 0
+
+    def close():
+        nonlocal cur
+        if cur is None:
+            return
+        letter = "C"
+        for g in cur:
+            if case.dir == "b1":
+                if g[0] == "HS":
+                    letter = "D"
+                elif g[0] == "TXs" and g[3] == "136" and letter != "D":
+                    letter = "F"
+                elif g[0] == "TXs" and g[3] == "128" and letter != "D":
+                    letter = "J"
+            else:
+                if g[0] == "HC" and g[1] == "69":
+                    letter = "D"
+                elif g[0] == "HC" and g[1] == "130":
+                    letter = "J"
+                elif g[0] == "HC" and g[1] == "136":
+                    letter = "F"
+        if letter == "D" and case.dir == "b1" and toks and toks[-1].startswith("0/0/"):
+            letter = "P"      # NUM 0 without More: handed to the application as it is
+        obs.append(letter)
+        cur = None
+
+    for f in ev:
+        k = f[0]
+        if k == "RX":
+            close()
+            if f[1] in blk:
+                toks.append(blk[f[1]])
+                cur = []
+            continue
+        if k in ("T", "END"):
+            close()
+        if k == "ST":
+            n = int(f[1 + rcv_idx])
+            ini = int(f[5]) if len(f) > 5 else 0
+            dropped = n < state_n
+            restarted = case.dir == "b2" and ini == 1 and initial == 0 and n >= 1 and state_n >= 1
+            if dropped or restarted:
+                # a drop that goes with a delivery / failure / rejection of the current arrival is
+                # the model's own transition; anything else is a timeout or a restart
+                natural = False
+                if cur is not None:
+                    for g in cur:
+                        if (g[0] == "HS") or (g[0] == "HC" and g[1] in ("69", "130")) or \
+                           (g[0] == "TXs" and g[3] in ("136",)):
+                            natural = True
+                if not natural:
+                    close()
+                    toks.append("R")
+            state_n, initial = n, ini
+            continue
+        if cur is not None:
+            cur.append(f)
+    close()
+    mx = case.srv_szx if case.srv_szx != 7 else 0
+    recv_line = "blkrecv %s %d %d %d %s" % (case.dir, case.len, case.seed, mx, " ".join(toks))
+    return wire_line, recv_line, "".join(obs)
